@@ -50,6 +50,9 @@ def run(ctx):
         if j == 0:
             for r in recs[:3]:
                 ctx.sample({"call": r["repr"], "dump": r["dump"]["kind"]})
+    # spec growth (not part of the verdict): the Fault object as a state machine
+    from checks import growth
+    growth.safely(ctx, growth.run_fault_obj)
 
 
 def replay(ctx, path):
